@@ -112,6 +112,29 @@ def run(prog, rep):
     # sub-interface removal keeps the parent
     iface = prog.cls('fim.user.interface:Interface')
     rci = iface.methods.get('remove_child_interface')
+    # ... and first disconnects the sub-interface from the service it is connected to (the service-side port goes with it)
+    if rci is not None:
+        rcfg = CFG(rci)
+        rdom = rcfg.dominators()
+        rm_ = [c for c in walk_no_nested(rci) if isinstance(c, ast.Call) and call_name(c) == 'remove_cp_and_links']
+        disc_ = [c for c in walk_no_nested(rci) if isinstance(c, ast.Call) and call_name(c) == 'disconnect_interface']
+        peers_ = [c for c in walk_no_nested(rci) if isinstance(c, ast.Call) and call_name(c) == 'get_peers' and
+                  any(isinstance(x, ast.Attribute) and x.attr == 'ServicePort' for x in ast.walk(c))]
+        okd = False
+        if rm_ and disc_ and peers_:
+            pn_ = flow.node_of(rcfg, peers_[0])
+            rn_ = flow.node_of(rcfg, rm_[0])
+            dn_ = flow.node_of(rcfg, disc_[0])
+            # the peer query runs on every path to the removal, the disconnect precedes the removal, and what is disconnected
+            # is the handle whose peers were queried
+            same_handle = disc_[0].args and ast.unparse(disc_[0].args[0]) == ast.unparse(peers_[0].func.value)
+            okd = pn_ is not None and rn_ is not None and dn_ is not None and pn_.id in rdom.get(rn_.id, set()) and \
+                rcfg.paths_avoiding(dn_, rn_, set()) and not rcfg.paths_avoiding(rn_, dn_, set()) and bool(same_handle)
+        rep.instance('R4', f'Interface.remove_child_interface: sub-interface disconnected from its service before the removal: {okd}')
+        if not okd:
+            rep.violation('R4', loc(iface.module, rci), 'Interface.remove_child_interface', 'sub-interface not disconnected before the removal',
+                          'a sub-interface that is connected to a service is removed together with its link, but the service-side port created '
+                          'for it stays in the service without a peer: the peering artefacts of the removed element must go with it')
     calls = [c for c in walk_no_nested(rci) if isinstance(c, ast.Call) and call_name(c) == 'remove_cp_and_links']
     rep.instance('R2', f'Interface.remove_child_interface: {norm(calls[0], 100) if calls else None}')
     dpv = kwarg(calls[0], 'delete_parent') if calls else None
@@ -154,7 +177,31 @@ def run(prog, rep):
                     any(isinstance(a_, ast.Name) and a_.id == nparam for a_ in list(base.args) + [k.value for k in base.keywords]):
                 return 'nodes'
             return '?' + ast.unparse(base)
-        loops = [(l, own_interfaces(l.iter)) for l in walk_no_nested(fn) if isinstance(l, ast.For) and isinstance(l.target, ast.Name)]
+        def with_children(it):
+            """(collection, True) when ``it`` ranges over the interfaces of the element AND over their sub-interfaces:
+            [x for top in <own interfaces> for x in (top,) + tuple(top.interface_list)] and equivalent forms"""
+            e = expand(it, env)
+            if isinstance(e, (ast.ListComp, ast.GeneratorExp)) and len(e.generators) == 2 and isinstance(e.generators[0].target, ast.Name):
+                base_ = own_interfaces(e.generators[0].iter)
+                top_ = e.generators[0].target.id
+                second = e.generators[1].iter
+                has_top = any(isinstance(x, ast.Name) and x.id == top_ and not isinstance(getattr(x, '_parent', None), ast.Attribute) for x in ast.walk(second)) or \
+                    any(isinstance(x, (ast.Tuple, ast.List)) and any(isinstance(y, ast.Name) and y.id == top_ for y in x.elts) for x in ast.walk(second))
+                has_kids = any(isinstance(x, ast.Attribute) and x.attr in ('interface_list', 'interfaces') and isinstance(x.value, ast.Name) and x.value.id == top_
+                               for x in ast.walk(second))
+                elt_ok = isinstance(e.elt, ast.Name) and isinstance(e.generators[1].target, ast.Name) and e.elt.id == e.generators[1].target.id
+                if base_ is not None and has_top and has_kids and elt_ok and not e.generators[0].ifs and not e.generators[1].ifs:
+                    return base_, True
+            return None
+        child_cover = {}
+        loops = []
+        for l in [l_ for l_ in walk_no_nested(fn) if isinstance(l_, ast.For) and isinstance(l_.target, ast.Name)]:
+            wc = with_children(l.iter)
+            if wc is not None:
+                loops.append((l, wc[0]))
+                child_cover[id(l)] = True
+            else:
+                loops.append((l, own_interfaces(l.iter)))
         loops = [(l, w) for l, w in loops if w is not None and any(isinstance(c, ast.Call) and call_name(c) == 'disconnect_interface' for c in ast.walk(l))]
         rep.instance('R4', f'{fq}: disconnect loop over {norm(loops[0][0].iter) if loops else None} ({loops[0][1] if loops else None}); removal {remover}={len(rm)}')
         ok = bool(rm) and bool(loops)
@@ -186,6 +233,10 @@ def run(prog, rep):
             if ok and not good:
                 ok = False
                 why = 'the interface is not disconnected through the service that owns its ServicePort peer'
+            if ok and not child_cover.get(id(l)):
+                ok = False
+                why = ('the disconnect loop covers the interfaces of the element but not their sub-interfaces: a sub-interface that is connected '
+                       'to a service keeps its service-side port (without a link) after the removal')
             if ok:
                 cfg = CFG(fn)
                 dom = cfg.dominators()
@@ -461,6 +512,10 @@ def _never_cached(fn, rc, rid):
 UNS = 'fim/user/network_service.py'
 AP = 'fim/graph/abc_property_graph.py'
 MUTANTS = [
+    {'name': 'sub-interfaces-not-disconnected-on-node-removal', 'file': 'fim/user/topology.py', 'rule': 'R4',
+     'find': "        for i in [x for top in self.nodes[name].interface_list for x in (top,) + tuple(top.interface_list)]:", 'replace': "        for i in self.nodes[name].interface_list:"},
+    {'name': 'child-interface-removed-without-disconnect', 'file': 'fim/user/interface.py', 'rule': 'R4',
+     'find': "                self.topo.get_parent_element(peers[0]).disconnect_interface(child)\n", 'replace': "                pass\n"},
     {'name': 'unpeer-filters-from-own-cache', 'file': UNS, 'rule': 'R1',
      'find': 'ns._interfaces = list(filter((lambda x: x.node_id != sp[-2]), ns._interfaces))', 'replace': 'ns._interfaces = list(filter((lambda x: x.node_id != sp[-2]), self._interfaces))'},
     {'name': 'remove-interface-cache-not-updated', 'file': UNS, 'rule': 'R1',
